@@ -4,6 +4,7 @@ from core import Case, Failure
 import toyasmgen
 
 PROP = "C19"
+CONSTS = ['toy', 'mem']          # constant tables of the models this property depends on
 RULE = ("encode/decode: boundary and random words (thorough: all 2^16 words exhaustively, all 13x4096 instructions); "
         "assembler: source texts generated from the documented TOY grammar (stand-alone and in-line labels, data before "
         "or after text, arrays, forward references, decimal/hex operands, mnemonic case, comments, blank lines) and the "
